@@ -25,34 +25,18 @@ RULE = ("structured random cases: 1-3 named dims of size 1-3, obs/weights on ran
 ASSUMPTIONS = ["sqrt / correlation are applied by the host to the model's exact rational arguments"]
 
 
-def scores():
-    import scores as S
-    return S
+import scorelib
+from scorelib import REGISTRY
+
+C05_FUNCS = ["quantile_score", "quantile_interval_score", "interval_score", "mse", "mae", "rmse", "additive_bias", "mean_error",
+             "multiplicative_bias", "pbias", "pearsonr", "kge"]
 
 
-def gen_case(ctx, allow_bad=True):
-    rng = ctx.rng
-    sizes = gens.rand_sizes(rng)
-    fcst = gens.rand_da(rng, sizes, nan_p=0.15 if rng.random() < 0.5 else 0.0)
-    odims = gens.sub_dims(rng, sizes, p_drop=0.25)
-    obs = gens.rand_da(rng, sizes, dims=odims, nan_p=0.15 if rng.random() < 0.4 else 0.0)
-    if rng.random() < 0.5:
-        obs = gens.force_ties(rng, fcst, obs)
-    w = None
-    if rng.random() < 0.4:
-        wd = gens.sub_dims(rng, sizes, p_drop=0.4)
-        w = gens.rand_da(rng, sizes, dims=wd, lo=0, hi=3, nan_p=0.1 if rng.random() < 0.3 else 0.0)
-    rd, pd = gens.rand_dimspec(rng, list(sizes), allow_bad=allow_bad)
-    return fcst, obs, w, rd, pd
-
-
-def run(ctx):
-    S = scores()
-    rng = ctx.rng
-    # ---- kernel level: regenerated kernel vs proved specification vs implementation, full tie grid ----
+def kernel_grids(ctx):
+    """regenerated kernel vs proved specification vs implementation on the full tie grid"""
+    S = scorelib.S()
     grid = [Fraction(k, 2) for k in range(-3, 4)]
-    alphas = [Fraction(1, 4), Fraction(1, 2), Fraction(7, 10)]
-    for a in alphas:
+    for a in [Fraction(1, 4), Fraction(1, 2), Fraction(7, 10)]:
         for f in grid:
             for o in grid:
                 gen, spec = core.dec_nums(ctx.model("k_quantile_score", enc_list([enc_num(f), enc_num(o), enc_num(a)])))
@@ -62,31 +46,83 @@ def run(ctx):
                     ctx.violation("quantile_score differs from the pinball loss", {"alpha": a, "fcst": f, "obs": o}, spec, impl)
                 if not core.close(impl, gen):
                     ctx.tie_fail("gen_quantile_score vs implementation", {"alpha": a, "fcst": f, "obs": o}, impl, gen)
-    ctx.count("kernel_grid_points", len(alphas) * len(grid) ** 2)
-    # ---- full function: implementation vs model (plumbing + kernel) ----
-    for i in range(ctx.n(150, 1500)):
-        if not ctx.time_left():
-            break
-        fcst, obs, w, rd, pd = gen_case(ctx)
-        alpha = rng.choice([Fraction(1, 4), Fraction(1, 2), Fraction(3, 4), Fraction(1, 10), Fraction(0), Fraction(1), Fraction(-1, 2), Fraction(3, 2)]
-                           if rng.random() < 0.2 else [Fraction(1, 4), Fraction(1, 2), Fraction(3, 4), Fraction(1, 10)])
-        kw = {}
-        if rd is not None:
-            kw["reduce_dims"] = rd
-        if pd is not None:
-            kw["preserve_dims"] = pd
-        if w is not None:
-            kw["weights"] = w
-        impl = core.call_impl(S.continuous.quantile_score, fcst, obs, float(alpha), **kw)
-        m = ctx.model("quantile_score", enc_list([enc_arr(fcst), enc_arr(obs), enc_num(alpha), enc_dimspec(rd), enc_dimspec(pd), enc_opt(w, enc_arr)]))
-        ok, why = core.compare_result(impl, m)
-        desc = {"fn": "quantile_score", "fcst": gens.da_repr(fcst), "obs": gens.da_repr(obs), "alpha": alpha, "reduce_dims": rd, "preserve_dims": pd,
-                "weights": gens.da_repr(w)}
-        nontrivial = impl[0] == "ok" and bool(np.isfinite(np.asarray(impl[1])).any())
-        ctx.case(desc, nontrivial)
-        ctx.count("ok" if impl[0] == "ok" else impl[1])
-        ctx.count("spelling:" + ("none" if rd is None and pd is None else type(rd if rd is not None else pd).__name__))
-        if i < 2:
-            ctx.sample(desc)
-        if not ok:
-            ctx.tie_fail("quantile_score vs model: " + why, desc, str(impl[1])[:300], str(m)[:300])
+    ctx.count("pinball_grid_points", 3 * len(grid) ** 2)
+    # interval kernel: lower <= upper, observation on / inside / outside the interval
+    pts = [Fraction(k, 2) for k in range(-2, 5)]
+    n = 0
+    for ll, ul in [(Fraction(1, 10), Fraction(9, 10)), (Fraction(1, 4), Fraction(1, 2))]:
+        for lo in pts[:4]:
+            for hi in [h for h in pts if h >= lo][:4]:
+                for y in pts:
+                    gen, spec = ctx.model("k_qis", enc_list([enc_num(lo), enc_num(hi), enc_num(y), enc_num(ll), enc_num(ul)]))
+                    gen, spec = core.dec_nums(gen), core.dec_nums(spec)
+                    da = lambda v: xr.DataArray([float(v)], dims="x")  # noqa: E731
+                    r = S.continuous.quantile_interval_score(da(lo), da(hi), da(y), float(ll), float(ul), preserve_dims="all")
+                    impl = [float(r[v].values.ravel()[0]) for v in scorelib.QIS_VARS]
+                    n += 1
+                    ctx.case(("kqis", ll, ul, lo, hi, y))
+                    if not core.close_list(impl, spec):
+                        ctx.violation("quantile_interval_score differs from width + scaled penalties",
+                                      {"lower": lo, "upper": hi, "obs": y, "levels": [ll, ul]}, spec, impl)
+                    if not core.close_list(impl, gen):
+                        ctx.tie_fail("gen_qis vs implementation", {"lower": lo, "upper": hi, "obs": y, "levels": [ll, ul]}, impl, gen)
+    ctx.count("interval_grid_points", n)
+
+
+def run(ctx):
+    rng = ctx.rng
+    kernel_grids(ctx)
+    per_fn = ctx.n(25, 250)
+    for name in C05_FUNCS:
+        fn = REGISTRY[name]
+        for i in range(per_fn):
+            if not ctx.time_left():
+                break
+            angles = getattr(fn, "has_angular", False) and rng.random() < 0.3
+            arrs, w, sizes = scorelib.gen_arrays(rng, fn, angles=angles)
+            bad = rng.random() < 0.1
+            extra = fn.gen_extra(rng, bad=bad)
+            if angles:
+                extra["is_angular"] = True
+            rd, pd = gens.rand_dimspec(rng, list(sizes), allow_bad=True)
+            impl, m, ok, why = fn.run(ctx, arrs, extra, rd, pd, w)
+            desc = fn.describe(arrs, extra, rd, pd, w)
+            ctx.case(desc, impl[0] == "ok")
+            ctx.count(name + ":" + ("ok" if impl[0] == "ok" else impl[1]))
+            if i == 0:
+                ctx.sample(desc, limit=12)
+            if not ok:
+                ctx.tie_fail(name + " vs model: " + why, desc, str(impl[1])[:300], str(m)[:300])
+    relations(ctx)
+
+
+def relations(ctx):
+    """relations between public functions that the property states (evaluated on the implementation)"""
+    S = scorelib.S()
+    rng = ctx.rng
+    for i in range(ctx.n(30, 300)):
+        arrs, w, sizes = scorelib.gen_arrays(rng, REGISTRY["mse"], nan_p=0.1, same_dims=True)
+        f, o = arrs
+        kw = scorelib.kw_dims(None, gens.sub_dims(rng, sizes, p_drop=0.6), w)
+        ctx.case(("rel", gens.da_repr(f), gens.da_repr(o), kw.get("preserve_dims")))
+        # rmse^2 = mse
+        a = core.call_impl(S.continuous.rmse, f, o, **kw)
+        b = core.call_impl(S.continuous.mse, f, o, **kw)
+        if a[0] == "ok" and b[0] == "ok":
+            if not np.allclose((a[1] ** 2).values, b[1].transpose(*a[1].dims).values, rtol=1e-9, atol=1e-12, equal_nan=True):
+                ctx.violation("rmse squared differs from mse", {"fcst": gens.da_repr(f), "obs": gens.da_repr(o), "kw": str(kw)}, str(b[1].values), str((a[1] ** 2).values))
+        # interval score = quantile interval score at symmetric levels
+        width = abs(o - f) + 1
+        ir = rng.choice([0.5, 0.25, 0.75])
+        x = core.call_impl(S.continuous.interval_score, f, f + width, o, ir, **kw)
+        y = core.call_impl(S.continuous.quantile_interval_score, f, f + width, o, (1 - ir) / 2, (1 + ir) / 2, **kw)
+        if x[0] == "ok" and y[0] == "ok":
+            for v in scorelib.QIS_VARS:
+                if not np.allclose(x[1][v].values, y[1][v].values, rtol=1e-9, atol=1e-12, equal_nan=True):
+                    ctx.violation("interval_score differs from quantile_interval_score at symmetric levels", {"fcst": gens.da_repr(f)}, str(y[1][v].values), str(x[1][v].values))
+        # kge of a series with itself is 1 (non-degenerate series)
+        g = f.where(f.notnull(), 1.0)
+        k = core.call_impl(S.continuous.kge, g, g)
+        if k[0] == "ok" and float(g.std()) > 0 and abs(float(g.mean())) > 0:
+            if not abs(float(k[1]) - 1) < 1e-9:
+                ctx.violation("kge(x, x) is not 1", {"x": gens.da_repr(g)}, 1, float(k[1]))
